@@ -8,7 +8,7 @@ TRANSLATORS = [t2_gql_tokens.translate]
 LEAN_MODULES = ["IsoVerif.Props.C10"]
 _P = "IsoVerif.Props.C10."
 THEOREMS = [_P + t for t in (
-    "C10_fixed_object_argument", "C10_witness_variable_default", "C10_merge_covers_partial",
+    "C10_fixed_object_argument", "C10_fixed_variable_default", "C10_witness_duplicate_variable_names", "C10_merge_covers_partial",
     "C10_read_eq_merge_partial", "C10_witnesses_envelope", "C10_witness_store_keys")]
 HARNESS = ("hx_ops", {"HX_ENGINE": "c10"})
 DRIVER = "drv_ops"
@@ -20,11 +20,11 @@ TECHNIQUE = ("Lean 4: (a) executable semantics of the runtime's normalizeData / 
              "merge with variable contexts and of the readers' run-time substitution, with the theorem that inside the SafeArgs envelope the "
              "keys read are exactly the merged keys (structural induction over selections and client-field chains), and witnesses outside it")
 LEVEL_TEXT = ("Kernel-checked for every program of the model (server scalar / linked fields, eagerly read client fields with arguments, any "
-              "nesting, any chain of client fields): when every variable an argument uses (at any depth, objects included) is declared and every "
-              "variable of a called client field is passed or has no default, every (path, store key) the entrypoint's reader and the readers "
+              "nesting, any chain of client fields): when client fields declare distinct variable names, defaults are constants and every variable "
+              "an argument uses (at any depth, objects included) is declared — i.e. what validation accepts — every (path, store key) the entrypoint's reader and the readers "
               "it reaches look up is an entry of the merged selection map, and conversely (C10_merge_covers_partial, C10_read_eq_merge_partial); "
-              "outside that envelope the statement fails (defaulted variable: witness theorem, open finding); the object-argument case (F12b) failed "
-              "for the compiler before af3b32d and holds now (C10_fixed_object_argument, old and new merge side by side). On the "
+              "the object-argument case (F12b) and the defaulted-variable case failed for the compiler before af3b32d / 901ffd9 and hold now "
+              "(C10_fixed_object_argument, C10_fixed_variable_default: old and new functions side by side). On the "
               "real code: for every entrypoint of every generated project, four generated conforming responses each (no nulls / random / sparse; "
               "lists 0-3; concrete types of abstract fields cycled) are normalized and read by the REAL normalizeDataIntoRecord / readData under "
               "node; the oracle requires that no read reports missing data or throws, that the same holds for @component readers, and that "
@@ -41,8 +41,8 @@ PARTIAL = ["the theorem is about the compiler-side model (keys); that a covered 
            "responses: no interface-typed `node(id)` answered with a type other than the one the compiler's own wrapper refines to; equal "
            "field+arguments under one parent get one value",
            "loadable / imperatively loaded fields and client pointers are boundaries: only their refetch reader (`id`) is read",
-           "open findings: defaulted client-field variable, inline fragment on an abstract type, null variable inside an object argument "
-           "(runtime: store key `{\"id\":\"null\"}` written, `{}` read), pointer target whose id was not selected; F12b repaired (af3b32d)"]
+           "open findings: inline fragment on an abstract type, null variable inside an object argument "
+           "(runtime: store key `{\"id\":\"null\"}` written, `{}` read), pointer target whose id was not selected; F12b (af3b32d) and the defaulted variable (901ffd9) repaired"]
 ASSUMPTIONS = ["JSON numbers are integers or x.5 (printed alike by JavaScript and serde_json)",
                "a client pointer's resolver returns the first link of the target type found in its data, else null; an eager resolver returns its data"]
 
